@@ -29,7 +29,7 @@ ASSUMPTIONS = [
     "lines and controller calls whose ids are integers (Op.carry), by induction over the history; this run also "
     "checks it on every network built by a real gateway",
     "Python dicts are insertion-ordered association lists with distinct keys; payloads are sequences of "
-    "Unicode scalar values (lone surrogates are outside Lean's Char and not generated)",
+    "Unicode scalar values (unpaired surrogates are outside Lean's Char: one corpus network with such text is judged on the real code only, without the model)",
     "str.isdigit is modelled on the characters the encoder can write (decimal digits); safe_is_version is "
     "the version model of Model/Version.lean (strings outside its domain count as rejected)",
 ]
@@ -60,6 +60,14 @@ def corpus():
     c.queue = deque(["1;5;1;0;2;0\n", "1;255;3;0;13;\n"])
     c.reboot = True
     out.append(("ids 255/254/1, exotic text, transients", {255: a, 254: b, 1: c}, True))
+    # text with unpaired surrogate code points (what a client that decoded bytes with surrogateescape, or
+    # json.loads of an escaped surrogate, hands to set_child_value / an MQTT callback): not text the Lean
+    # model can hold (Char is a Unicode scalar value), judged on the real code only
+    d = Sensor(9)
+    d.type, d.sketch_name, d.sketch_version = 17, "K\udcfcche", "\ud800"
+    d.children[1] = ChildSensor(1, 36, "caf\udce9")
+    d.children[1].values = {47: "\udc80\udcff", 2: "x\ud83d"}
+    out.append(("unpaired surrogates", {9: d}, True))
     # outside the invariant (not reachable): what the hooks do is still compared with the model
     n = Sensor(-1)
     out.append(("negative node id", {-1: n}, False))
@@ -125,7 +133,16 @@ def _run(res, rng, tier, driver, work):
     states = corpus()
     for i in range(n_gw):
         version = rng.choice(["1.4", "1.5", "2.0", "2.1", "2.2"])
-        states.append((f"gateway {version} #{i}", pu.gateway_state(rng, version, rng.choice([5, 15, 40])), True))
+        audit = []
+        states.append((f"gateway {version} #{i}", pu.gateway_state(rng, version, rng.choice([5, 15, 40]), audit), True))
+        for nid, cid, vt, value, before, after in audit[:1]:
+            res.oracle_failures.append({
+                "key": {"kind": "desired-value-persisted"},
+                "what": f"gateway {version}: the controller set value type {vt} of child {cid} on the sleeping node {nid} "
+                        f"to {value!r}; the node has not confirmed it, yet what a save writes changed "
+                        f"({first_diff(before, after)}): a load brings the pending desired value back as a reported one",
+                "replay": {"label": f"gateway {version} #{i}", "desired": [nid, cid, vt, value],
+                           "before": before[:1500], "after": after[:1500]}})
     for i in range(n_direct):
         states.append((f"direct #{i}", pu.direct_state(rng), True))
     lines, impls, labels = [], [], []
@@ -162,7 +179,7 @@ def _run(res, rng, tier, driver, work):
                 res.oracle_failures.append({"key": {"kind": "not-exact", "fmt": fmt, "field": first_diff(want, got)},
                                             "what": f"{fmt} round trip is not exact ({first_diff(want, got)})",
                                             "replay": {"label": label, "fmt": fmt, "want": want[:2000], "got": got[:2000]}})
-            if pu.typed(sensors):
+            if pu.typed(sensors) and "surrogate" not in label:
                 lines.append(f"P11 {fmt} " + " ".join(pu.wire_state(sensors)))
                 impls.append("untyped" if (exc is not None or not pu.typed(loaded)) else "ok " + got)
                 labels.append(label)
@@ -281,9 +298,17 @@ def replay(payload):
     rc = 0
     try:
         states = corpus()
-        for i in range(40):
+        tier = os.environ.get("VERIF_TIER", "quick")
+        n_gw = (40 if tier == "quick" else 700) * common.effort(tier)
+        for i in range(n_gw):
             version = rng.choice(["1.4", "1.5", "2.0", "2.1", "2.2"])
-            states.append((f"gateway {version} #{i}", pu.gateway_state(rng, version, rng.choice([5, 15, 40])), True))
+            audit = []
+            states.append((f"gateway {version} #{i}", pu.gateway_state(rng, version, rng.choice([5, 15, 40]), audit), True))
+            if states[-1][0] == label and "desired" in r:
+                for nid, cid, vt, value, before, after in audit:
+                    print(f"desired value {value!r} for value type {vt} of child {cid} on the sleeping node {nid} "
+                          f"changed what a save writes:\n  before: {before[:600]}\n  after:  {after[:600]}")
+                    rc = 1
         for i in range(160):
             states.append((f"direct #{i}", pu.direct_state(rng), True))
         for lab, sensors, exact in states:
